@@ -2,6 +2,8 @@ import CmModel.Proto
 import CmModel.Lab
 import CmModel.Hsl
 import CmModel.Descent
+import CmModel.Color
+import CmGen.NamedColors
 /-! Line-protocol driver: one operation per input line, one result line per operation. -/
 open Cm Cm.Proto
 
@@ -14,6 +16,146 @@ def rgbOf (a b c : String) : Option RGB := do
   let r ← parseInt a; let g ← parseInt b; let bl ← parseInt c; pure (r, g, bl)
 def tripleOf (a b c : String) : Option (Triple Float) := do
   let x ← floatOfHex a; let y ← floatOfHex b; let z ← floatOfHex c; pure (x, y, z)
+
+
+/-! ### wire format of Python values and character classes -/
+
+partial def decodeVal (toks : List String) : Option (PyVal Float × List String) :=
+  match toks with
+  | [] => none
+  | t :: rest =>
+    let tag := t.take 1
+    let body := (t.drop 1).toString
+    if tag == "S" then
+      if body == "-" then some (.str [], rest) else (strOfHex body).map fun s => (.str s.toList, rest)
+    else if tag == "I" then body.toInt?.map fun n => (.int n, rest)
+    else if tag == "F" then (floatOfHex body).map fun x => (.float x, rest)
+    else if tag == "B" then some (.bool (body == "1"), rest)
+    else if tag == "N" then some (.none, rest)
+    else if tag == "T" || tag == "L" then
+      match body.toNat? with
+      | none => none
+      | some n =>
+        let rec items (k : Nat) (ts : List String) (acc : List (PyVal Float)) : Option (List (PyVal Float) × List String) :=
+          match k with
+          | 0 => some (acc.reverse, ts)
+          | k + 1 => match decodeVal ts with
+            | some (v, ts') => items k ts' (v :: acc)
+            | none => none
+        match items n rest [] with
+        | some (xs, ts') => some ((if tag == "T" then .tuple xs else .list xs), ts')
+        | none => none
+    else none
+
+/-- `cp:space:digit:lowerhex` overrides for non-ASCII code points -/
+def decodeCls (toks : List String) : Option CharCls := do
+  let mut tbl : List (Nat × Bool × Option Nat × Str) := []
+  for t in toks do
+    match t.splitOn ":" with
+    | [cp, sp, dg, lo] =>
+      let cp ← cp.toNat?
+      let d : Option Nat := if dg == "x" then none else dg.toNat?
+      let l ← if lo == "-" then some "" else strOfHex lo
+      tbl := (cp, sp == "1", d, l.toList) :: tbl
+    | _ => none
+  let find (c : Char) := tbl.find? (fun e => e.1 = c.toNat)
+  pure { isSpace := fun c => match find c with | some e => e.2.1 | none => asciiIsSpace c
+         digit := fun c => match find c with | some e => e.2.2.1 | none => asciiDigit c
+         lower := fun c => match find c with | some e => e.2.2.2 | none => asciiLower c }
+
+def namedEnv : List (Str × Str) := CmGen.namedTable.map fun kv => (kv.1.toList, kv.2.toList)
+
+def fmtErr : PyErr → String
+  | .valueError => "err value" | .typeError => "err type" | .overflowError => "err overflow"
+
+def fmtParse : Except PyErr RGB → String
+  | .ok c => "ok " ++ fmtRgb c
+  | .error e => fmtErr e
+
+def bgOf (s : String) : Option (Option RGB) :=
+  if s == "-" then some none else
+  match s.splitOn "," with
+  | [a, b, c] => (rgbOf a b c).map some
+  | _ => none
+
+def fmtOut : Parse.OutVal Float → String
+  | .text s => "s:" ++ hexOfStr (String.ofList s)
+  | .hsl h s l => s!"h:{hexOfFloat h},{hexOfFloat s},{hexOfFloat l}"
+  | .tuple c => s!"t:{c.1},{c.2.1},{c.2.2}"
+
+def fmtState : ColorState → String
+  | .valid c => "valid " ++ fmtRgb c
+  | .invalid => "invalid"
+  | .raised e => "raised " ++ (fmtErr e).drop 4
+
+/-- ops whose arguments are Python values: `<op> <settings…> <k> <cls>*k <values…>` -/
+def handleVal (op : String) (args : List String) : Option String := do
+  match op, args with
+  | "parse", bg :: k :: rest =>
+    let bg ← bgOf bg; let k ← k.toNat?
+    let cls ← decodeCls (rest.take k)
+    let (v, _) ← decodeVal (rest.drop k)
+    let E : PEnv := { cls := cls, named := namedEnv }
+    pure (fmtParse (Parse.parseColor (α := Float) E v bg) ++ " " ++ (Parse.detectFormat E v).toString)
+  | "pair", large :: k :: rest =>
+    -- ColorPair(text, bg, large): states, is_readable
+    let k ← k.toNat?
+    let cls ← decodeCls (rest.take k)
+    let (t, r1) ← decodeVal (rest.drop k)
+    let (b, _) ← decodeVal r1
+    let E : PEnv := { cls := cls, named := namedEnv }
+    let p := ColorPair.new (α := Float) E t b (large == "1")
+    pure s!"{fmtState p.text.state} | {fmtState p.bg.state} | {p.text.fmt.toString} | {p.isReadable}"
+  | "mr", large :: mode :: very :: k :: rest =>
+    let k ← k.toNat?; let mode ← parseInt mode
+    let cls ← decodeCls (rest.take k)
+    let (t, r1) ← decodeVal (rest.drop k)
+    let (b, _) ← decodeVal r1
+    let E : PEnv := { cls := cls, named := namedEnv }
+    let p := ColorPair.new (α := Float) E t b (large == "1")
+    match p.makeReadable E floatLeaf (descendImpl floatLeaf) mode (very == "1") with
+    | none => pure "none"
+    | some (o, ok) => pure (fmtOut o ++ (if ok then " 1" else " 0"))
+  | "bulk", mode :: very :: k :: rest =>
+    let k ← k.toNat?; let mode ← parseInt mode
+    let cls ← decodeCls (rest.take k)
+    let E : PEnv := { cls := cls, named := namedEnv }
+    -- items: `<large> <text> <bg>` repeated
+    let rec items (fuel : Nat) (ts : List String) (acc : List (BulkItem Float)) : Option (List (BulkItem Float)) :=
+      match fuel, ts with
+      | _, [] => some acc.reverse
+      | 0, _ => none
+      | fuel + 1, l :: ts => do
+        let (t, r1) ← decodeVal ts
+        let (b, r2) ← decodeVal r1
+        items fuel r2 ({ text := t, bg := b, large := l == "1" } :: acc)
+    let its ← items (rest.length + 1) (rest.drop k) []
+    let rs := Bulk.run E floatLeaf (descendImpl floatLeaf) mode (very == "1") its
+    pure (" ; ".intercalate (rs.map fun r =>
+      (match r.colour with | .original => "orig" | .tuned v => fmtOut v) ++ " " ++ hexOfStr r.status))
+  | "fmt", f :: r :: g :: b :: [] =>
+    let c ← rgbOf r g b
+    let f : Parse.Fmt := match f with
+      | "hex" => .hex | "rgb" => .rgb | "hsl" => .hsl | "rgb_tuple" => .rgbTuple | "named" => .named
+      | "rgba" => .rgba | "hsla" => .hsla | "rgba_tuple" => .rgbaTuple | _ => .unknown
+    let o := Parse.formatColor (α := Float) c f
+    -- and read it back through the model's own parser
+    let E : PEnv := { cls := asciiCls, named := namedEnv }
+    let back : String := match o with
+      | .text s => fmtParse (Parse.parseColor (α := Float) E (.str s) none)
+      | .tuple c => fmtParse (Parse.parseColor (α := Float) E (.tuple [.int c.1, .int c.2.1, .int c.2.2]) none)
+      | .hsl h s l => match hslTextToRgb (h, s, l) with | some c => "ok " ++ fmtRgb c | none => "err value"
+    pure (fmtOut o ++ " " ++ back)
+  | "float", k :: rest =>
+    let k ← k.toNat?
+    let cls ← decodeCls (rest.take k)
+    let (v, _) ← decodeVal (rest.drop k)
+    match v with
+    | .str s => match PyFloat.parse (α := Float) cls s with
+      | .ok x => pure ("ok " ++ hexOfFloat x)
+      | .error e => pure (fmtErr e)
+    | _ => none
+  | _, _ => none
 
 def handle (toks : List String) : Option String :=
   match toks with
@@ -82,6 +224,7 @@ def handle (toks : List String) : Option String :=
   | ["pmod", x, y] => do
       let x ← floatOfHex x; let y ← floatOfHex y; pure (hexOfFloat (Num.pmod x y))
   | ["round", x] => do let x ← floatOfHex x; pure (toString (Num.roundHE x))
+  | op :: args => handleVal op args
   | _ => none
 
 partial def loop (hin hout : IO.FS.Stream) : IO Unit := do
